@@ -673,6 +673,28 @@ Proof.
   - intros x. rewrite s_find_firstn, Hm, Hk, Hf by assumption. destruct (memb x _); reflexivity.
 Qed.
 
+(* the abstraction function: every concrete state satisfying the invariant represents an abstract one *)
+Definition abs_tlru c : tlru V :=
+  flat_map (fun k => match lookup k (l_map c) with Some e => [(k, proj e)] | None => [] end) (l_list c).
+Lemma sim_abs c : LInv c -> R c (abs_tlru c).
+Proof.
+  intros I. unfold abs_tlru.
+  assert (forall L, (forall x, In x L -> lookup x (l_map c) <> None) ->
+            map fst (flat_map (fun k => match lookup k (l_map c) with Some e => [(k, proj e)] | None => [] end) L) = L /\
+            forall k, s_find k (flat_map (fun k => match lookup k (l_map c) with Some e => [(k, proj e)] | None => [] end) L) =
+                      if memb k L then option_map proj (lookup k (l_map c)) else None) as H.
+  { induction L as [|x L IH]; intros HL; [split; reflexivity|].
+    destruct IH as [IH1 IH2]; [intros y Hy; apply HL; right; exact Hy|].
+    destruct (lookup x (l_map c)) as [e|] eqn:Hx; [|exfalso; apply (HL x); [left; reflexivity | exact Hx]].
+    cbn [flat_map]. rewrite Hx. cbn [app map fst s_find]. split; [f_equal; exact IH1|].
+    intros k. unfold memb. cbn [existsb]. peq k x; [rewrite Hx; reflexivity|]. cbn [orb]. apply IH2. }
+  destruct (H (l_list c)) as [H1 H2]; [intros x Hx; apply lookup_in_keys, (li_dom _ I); exact Hx|].
+  split; [exact H1|]. intros k. rewrite H2. destruct (memb k (l_list c)) eqn:E; [reflexivity|].
+  destruct (lookup k (l_map c)) eqn:Hk; [|reflexivity]. exfalso.
+  assert (In k (l_list c)) as Hin by (apply (li_dom _ I), lookup_in_keys; congruence).
+  apply memb_in in Hin. congruence.
+Qed.
+
 End Sim.
 
 (* ---------------------------------------------------------------- entries only ever disappear *)
@@ -823,7 +845,7 @@ Proof.
       apply (sub_pre_store k _ I). exact Hx.
     + rewrite Hcap, Httl. apply ar_with_lru; [exact Hr | apply sim_store; assumption | apply store_max].
   - (* PutNegative *)
-    unfold attr_put_negative, attr_put_negative_commit, attr_put_negative_read. cbn [fst snd]. rewrite Hon.
+    unfold attr_put_negative. rewrite Hon.
     destruct (ac_negon c) eqn:Eon; cbn [fst snd].
     + split; [|split; [|reflexivity]].
       * apply ainv_with_lru; [apply linv_store; exact I | apply bounded_store; assumption|]. congruence.
@@ -918,7 +940,7 @@ Proof.
   - unfold attr_put. cbn [ac_lru with_lru]. rewrite store_list by assumption. cbn [In]. rewrite remove_key_in.
     intros [->|[Hx _]]; [right; reflexivity|]. left.
     apply (Hsub _ (linv_pre_store k _ I) (sub_pre_store k _ I) Hx).
-  - unfold attr_put_negative, attr_put_negative_commit, attr_put_negative_read. cbn [fst snd].
+  - unfold attr_put_negative.
     destruct (ac_negon c); [|auto]. cbn [ac_lru with_lru]. rewrite store_list by assumption. cbn [In]. rewrite remove_key_in.
     intros [->|[Hx _]]; [right; reflexivity|]. left.
     apply (Hsub _ (linv_pre_store k _ I) (sub_pre_store k _ I) Hx).
@@ -977,7 +999,934 @@ Proof.
   destruct (attr_step_sim is_child_of c s to Hi Hr) as (Hi' & Hr' & _); [reflexivity|].
   apply IH; assumption.
 Qed.
+Lemma attr_step_inv c to : AInv c -> AInv (attr_step c to).
+Proof.
+  intros Hi.
+  assert (AR c {| as_entries := abs_tlru (ac_lru c); as_cap := l_max (ac_lru c); as_ttl := ac_ttl c;
+                  as_negttl := ac_negttl c; as_negon := ac_negon c |}) as Hr
+    by (split; [apply sim_abs, Hi | repeat split]).
+  destruct (attr_step_sim is_child_of c _ to Hi Hr) as (Hi' & _); [reflexivity | exact Hi'].
+Qed.
 Lemma attr_reachable_inv ttl mx c : attr_reachable ttl mx c -> AInv c.
 Proof. intros [h ->]. apply (attr_run_inv h _ _ (ainv_new ttl mx) (ar_new ttl mx)). Qed.
 
 End AttrProofs.
+
+(* ================================================================ isChildOf, exactly *)
+Definition dir_prefix (d : path) : path := if path_eqb d [slash] then [slash] else d ++ [slash].
+(* p is a direct child of directory d: d's prefix followed by one non-empty slash-free name *)
+Definition direct_child (p d : path) : Prop :=
+  exists name, name <> [] /\ ~ In slash name /\ p = dir_prefix d ++ name.
+
+Lemma no_slash_nonempty_spec r : no_slash_nonempty r = true <-> r <> [] /\ ~ In slash r.
+Proof.
+  unfold no_slash_nonempty. rewrite andb_true_iff, !negb_true_iff. split.
+  - intros [H1 H2]. split.
+    + intros ->. discriminate.
+    + intros Hin. assert (existsb (N.eqb slash) r = true) as E; [|congruence].
+      apply existsb_exists. exists slash. split; [exact Hin | apply N.eqb_refl].
+  - intros [H1 H2]. split.
+    + destruct (existsb (N.eqb slash) r) eqn:E; [|reflexivity]. exfalso. apply H2.
+      apply existsb_exists in E. destruct E as [x [Hx E]]. apply N.eqb_eq in E. subst. exact Hx.
+    + destruct r; [congruence | reflexivity].
+Qed.
+
+Lemma split_last_slash_none p : split_last_slash p = None <-> ~ In slash p.
+Proof.
+  induction p as [|c r IH]; cbn; [tauto|].
+  destruct (split_last_slash r) as [[b n]|] eqn:E.
+  - split; [discriminate|]. intros H. exfalso. destruct IH as [_ IH]. 
+    assert (~ In slash r) as Hr by tauto. specialize (IH Hr). discriminate.
+  - destruct (N.eqb_spec c slash) as [->|Hc].
+    + split; [discriminate | intros H; exfalso; apply H; left; reflexivity].
+    + split; [|reflexivity]. intros _ [H|H]; [congruence|]. apply IH in H; [exact H | reflexivity].
+Qed.
+Lemma split_last_slash_some p b n : split_last_slash p = Some (b, n) <-> p = b ++ slash :: n /\ ~ In slash n.
+Proof.
+  revert b n; induction p as [|c r IH]; intros b n; cbn.
+  - split; [discriminate|]. intros [H _]. destruct b; discriminate.
+  - destruct (split_last_slash r) as [[b' n']|] eqn:E.
+    + destruct (IH b' n') as [IH1 _]. destruct (IH1 eq_refl) as [Hr Hn']. split.
+      * intros [= <- <-]. split; [cbn; f_equal; exact Hr | exact Hn'].
+      * intros [Hp Hn]. destruct b as [|c0 b0]; cbn in Hp.
+        -- injection Hp as Hc Hrn. exfalso. apply Hn. rewrite <- Hrn, Hr. apply in_or_app. right; left; reflexivity.
+        -- injection Hp as Hc Hrn. destruct (IH b0 n) as [_ IH2].
+           assert (Some (b', n') = Some (b0, n)) as Heq by (apply IH2; split; assumption).
+           injection Heq as -> ->. rewrite Hc. reflexivity.
+    + apply split_last_slash_none in E. destruct (N.eqb_spec c slash) as [->|Hc].
+      * split.
+        -- intros [= <- <-]. split; [reflexivity | exact E].
+        -- intros [Hp Hn]. destruct b as [|c0 b0]; cbn in Hp.
+           ++ injection Hp as Hrn. rewrite Hrn. reflexivity.
+           ++ injection Hp as Hc Hrn. exfalso. apply E. rewrite Hrn. apply in_or_app. right; left; reflexivity.
+      * split; [discriminate|]. intros [Hp Hn]. exfalso. destruct b as [|c0 b0]; cbn in Hp.
+        -- injection Hp as Hc' Hrn. congruence.
+        -- injection Hp as Hc' Hrn. apply E. rewrite Hrn. apply in_or_app. right; left; reflexivity.
+Qed.
+
+Lemma direct_child_b_spec p d : direct_child_b p d = true <-> direct_child p d.
+Proof.
+  unfold direct_child_b, direct_child, dir_prefix. split.
+  - destruct (split_last_slash p) as [[b name]|] eqn:E; [|discriminate].
+    apply split_last_slash_some in E. destruct E as [Hp Hn].
+    rewrite andb_true_iff, negb_true_iff. intros [Hne Hb]. exists name.
+    split; [intros ->; discriminate|]. split; [exact Hn|].
+    destruct (path_eqb d [slash]).
+    + destruct b; [exact Hp | discriminate].
+    + apply path_eqb_true in Hb. subst b. rewrite <- app_assoc. exact Hp.
+  - intros [name (Hne & Hn & Hp)]. destruct (path_eqb d [slash]) eqn:Ed.
+    + assert (split_last_slash p = Some ([], name)) as E by (apply split_last_slash_some; split; assumption).
+      rewrite E. destruct name; [congruence | reflexivity].
+    + assert (split_last_slash p = Some (d, name)) as E
+        by (apply split_last_slash_some; split; [rewrite Hp, <- app_assoc; reflexivity | exact Hn]).
+      rewrite E, path_eqb_refl. destruct name; [congruence | reflexivity].
+Qed.
+
+Lemma firstn_split_at (d p : path) : (length d < length p)%nat -> firstn (length d) p = d ->
+  exists x rest, p = d ++ x :: rest /\ nth (length d) p 0 = x /\ skipn (length d + 1) p = rest.
+Proof.
+  revert p; induction d as [|c d IH]; intros p Hl Hf.
+  - destruct p as [|x rest]; [cbn in Hl; lia|]. exists x, rest. repeat split.
+  - destruct p as [|y p]; [cbn in Hl; lia|]. cbn in Hf. injection Hf as Hy Hf'.
+    destruct (IH p) as (x & rest & Hp & Hn & Hs); [cbn in Hl; lia | exact Hf'|].
+    exists x, rest. subst y. split; [cbn; f_equal; exact Hp|]. split; cbn; assumption.
+Qed.
+
+(* the code's rule, for every pair of byte strings *)
+Lemma is_child_of_spec p d : is_child_of p d = true <->
+  (d = [slash] /\ exists c name, p = c :: name /\ name <> [] /\ ~ In slash name) \/
+  (d <> [slash] /\ exists name, p = d ++ slash :: name /\ name <> [] /\ ~ In slash name).
+Proof.
+  unfold is_child_of. destruct (path_eqb_spec d [slash]) as [->|Hd].
+  - split.
+    + intros H. left. split; [reflexivity|].
+      destruct (path_eqb p [slash] || Nat.ltb (length p) 2) eqn:E; [discriminate|].
+      destruct p as [|c name]; [discriminate|]. cbn in H. apply no_slash_nonempty_spec in H.
+      exists c, name. tauto.
+    + intros [[_ (c & name & -> & Hne & Hn)]|[Hd _]]; [|congruence].
+      destruct name as [|y name]; [congruence|].
+      assert (path_eqb (c :: y :: name) [slash] = false) as E1.
+      { apply path_eqb_neq. intros [=]. }
+      rewrite E1. cbn [orb length Nat.ltb Nat.leb skipn]. apply no_slash_nonempty_spec. split; [discriminate | exact Hn].
+  - split.
+    + intros H. right. split; [exact Hd|].
+      destruct (Nat.leb (length p) (length d + 1)) eqn:E1; [discriminate|]. apply Nat.leb_gt in E1.
+      destruct (path_eqb (firstn (length d) p) d) eqn:E2; [|discriminate]. apply path_eqb_true in E2.
+      cbn [negb] in H.
+      destruct (firstn_split_at d p) as (x & rest & Hp & Hn & Hs); [lia | exact E2|].
+      rewrite Hn, Hs in H. destruct (N.eqb_spec x slash) as [->|Hx]; [|discriminate]. cbn [negb] in H.
+      apply no_slash_nonempty_spec in H. exists rest. tauto.
+    + intros [[Hd' _]|[_ (name & -> & Hne & Hn)]]; [congruence|].
+      assert (Nat.leb (length (d ++ slash :: name)) (length d + 1) = false) as E1.
+      { apply Nat.leb_gt. rewrite app_length. cbn. destruct name; [congruence | cbn; lia]. }
+      rewrite E1. rewrite firstn_app, Nat.sub_diag, firstn_all. cbn [firstn]. rewrite app_nil_r, path_eqb_refl.
+      cbn [negb]. rewrite nth_middle, N.eqb_refl. cbn [negb].
+      replace (d ++ slash :: name) with ((d ++ [slash]) ++ name) by (rewrite <- app_assoc; reflexivity).
+      rewrite skipn_app. replace (length d + 1)%nat with (length (d ++ [slash])) by (rewrite app_length; reflexivity).
+      rewrite skipn_all, Nat.sub_diag. cbn [skipn app]. apply no_slash_nonempty_spec. tauto.
+Qed.
+
+Lemma root_quirk_spec p d : root_quirk p d = true <->
+  d = [slash] /\ exists c name, c <> slash /\ p = c :: name /\ name <> [] /\ ~ In slash name.
+Proof.
+  unfold root_quirk. rewrite andb_true_iff. split.
+  - intros [Hd H]. apply path_eqb_true in Hd. split; [exact Hd|]. destruct p as [|c name]; [discriminate|].
+    apply andb_true_iff in H. destruct H as [Hc Hn]. apply no_slash_nonempty_spec in Hn.
+    exists c, name. apply negb_true_iff in Hc. apply N.eqb_neq in Hc. tauto.
+  - intros [-> (c & name & Hc & -> & Hne & Hn)]. split; [reflexivity|].
+    apply andb_true_iff. split; [apply negb_true_iff, N.eqb_neq; exact Hc | apply no_slash_nonempty_spec; tauto].
+Qed.
+
+Lemma bool_eq_iff (a b : bool) : (a = true <-> b = true) -> a = b.
+Proof. destruct a, b; intros [H1 H2]; try reflexivity; [symmetry; apply H1 | apply H2]; reflexivity. Qed.
+
+(* isChildOf = the parent rule, except that under "/" the first byte of the path is not checked *)
+Lemma is_child_of_full p d : is_child_of p d = direct_child_b p d || root_quirk p d.
+Proof.
+  apply bool_eq_iff. rewrite orb_true_iff, is_child_of_spec, direct_child_b_spec, root_quirk_spec.
+  unfold direct_child, dir_prefix. split.
+  - intros [[-> (c & name & -> & Hne & Hn)]|[Hd (name & -> & Hne & Hn)]].
+    + destruct (N.eqb_spec c slash) as [->|Hc].
+      * left. exists name. rewrite path_eqb_refl. tauto.
+      * right. split; [reflexivity|]. exists c, name. tauto.
+    + left. exists name. rewrite (path_eqb_neq _ _ Hd), <- app_assoc. tauto.
+  - intros [(name & Hne & Hn & Hp)|[-> (c & name & Hc & -> & Hne & Hn)]].
+    + destruct (path_eqb_spec d [slash]) as [->|Hd].
+      * left. split; [reflexivity|]. exists slash, name. tauto.
+      * right. split; [exact Hd|]. exists name. rewrite Hp, <- app_assoc. tauto.
+    + left. split; [reflexivity|]. exists c, name. tauto.
+Qed.
+
+Lemma is_child_of_abs p d : is_abs p = true -> is_child_of p d = direct_child_b p d.
+Proof.
+  intros Ha. rewrite is_child_of_full. destruct (root_quirk p d) eqn:E; [|apply orb_false_r].
+  exfalso. apply root_quirk_spec in E. destruct E as [_ (c & name & Hc & -> & _)].
+  cbn in Ha. apply N.eqb_eq in Ha. congruence.
+Qed.
+
+(* InvalidateTree's rule: the directory itself or anything below it *)
+Lemma has_prefix_spec pre s0 : has_prefix pre s0 = true <-> exists rest, s0 = pre ++ rest.
+Proof.
+  revert s0; induction pre as [|x pre IH]; intros s0; cbn.
+  - split; [intros _; exists s0; reflexivity | reflexivity].
+  - destruct s0 as [|y s0]; [split; [discriminate | intros [r H]; discriminate]|].
+    rewrite andb_true_iff, IH, N.eqb_eq. split.
+    + intros [-> [r ->]]. exists r. reflexivity.
+    + intros [r H]. inversion H; subst. split; [reflexivity | exists r; reflexivity].
+Qed.
+Lemma in_tree_spec p d : in_tree p d = true <-> p = d \/ exists rest, p = trim_suffix_slash d ++ slash :: rest.
+Proof.
+  unfold in_tree. rewrite orb_true_iff, has_prefix_spec. split.
+  - intros [H|[r H]]; [left; apply path_eqb_true; exact H | right; exists r; rewrite H, <- app_assoc; reflexivity].
+  - intros [->|[r H]]; [left; apply path_eqb_refl | right; exists r; rewrite H, <- app_assoc; reflexivity].
+Qed.
+
+(* ================================================================ DirCache *)
+Section DirProofs.
+Context {E : Type}.
+Implicit Types (c : dir_cache E) (s : dir_spec E).
+
+Record DInv c : Prop := { di_l : LInv (dc_lru c); di_b : Bounded (dc_lru c) }.
+Definition DR c s : Prop :=
+  R (dc_lru c) (ds_entries s) /\ ds_cap s = l_max (dc_lru c) /\ ds_timeout s = dc_timeout c /\
+  ds_max_dir s = dc_max_dir c.
+
+Lemma dinv_new t me md : DInv (new_dir_cache t me md).
+Proof. split; cbn; [apply linv_empty | split; cbn; [lia | apply default_size_pos; lia]]. Qed.
+Lemma dr_new t me md : DR (new_dir_cache t me md) (sd_new t me md).
+Proof. repeat split. Qed.
+
+Lemma bounded_sub_size' (l l' : lru (list E)) : Bounded l -> msize l' <= msize l -> l_max l' = l_max l -> Bounded l'.
+Proof. intros [Hb Hp] Hs Hm. unfold Bounded. rewrite Hm. split; [lia | exact Hp]. Qed.
+Lemma dr_with c s l ls : DR c s -> R l ls -> l_max l = l_max (dc_lru c) -> DR (with_dlru c l) (ds_with s ls).
+Proof. intros (HR & Hcap & Ht & Hd) Hl Hm. split; [exact Hl|]. cbn. repeat split; congruence. Qed.
+Lemma dinv_with c l : DInv c -> LInv l -> msize l <= msize (dc_lru c) -> l_max l = l_max (dc_lru c) -> DInv (with_dlru c l).
+Proof. intros [I B] Il Hs Hm. split; [exact Il | apply (bounded_sub_size' (dc_lru c)); assumption]. Qed.
+
+Lemma msize_ual' k (l : lru (list E)) : LInv l -> msize (update_access_log k l) = msize l /\ l_max (update_access_log k l) = l_max l.
+Proof.
+  intros I. destruct (lookup k (l_map l)) as [e|] eqn:H.
+  - rewrite (ual_list _ _ _ I H). split; reflexivity.
+  - unfold update_access_log. rewrite H. split; reflexivity.
+Qed.
+
+Lemma dir_step_sim c s to : DInv c -> DR c s ->
+  DInv (fst (dir_step_res c to)) /\ DR (fst (dir_step_res c to)) (fst (sd_step_res s to)) /\
+  snd (dir_step_res c to) = snd (sd_step_res s to).
+Proof.
+  intros Hi Hr. pose proof Hi as [I B]. pose proof Hr as (HR & Hcap & Ht & Hd). destruct to as [now op].
+  unfold dir_step_res, sd_step_res. destruct op as [k es|k|k|d|n|t| ]; cbn [fst snd].
+  - (* Put *)
+    unfold dir_put. rewrite Hd. destruct (dc_max_dir c <? N.of_nat (length es)); cbn [fst snd].
+    + split; [exact Hi|]. split; [exact Hr | reflexivity].
+    + split; [|split; [|reflexivity]].
+      * split; cbn [dc_lru with_dlru]; [apply linv_store; exact I | apply bounded_store; assumption].
+      * rewrite Hcap, Ht. apply dr_with; [exact Hr | apply sim_store; assumption | apply store_max].
+  - (* Get *)
+    unfold dir_get. destruct HR as [Hk Hf]. rewrite (Hf k).
+    destruct (lookup k (l_map (dc_lru c))) as [e|] eqn:Hl; cbn [option_map proj].
+    2:{ cbn [fst snd]. split; [exact Hi|]. split; [exact Hr | reflexivity]. }
+    destruct (ce_exp e <? Z.of_N now)%Z; cbn [fst snd].
+    + split; [|split; [|reflexivity]].
+      * apply dinv_with; [exact Hi | apply linv_delete_entry; exact I | apply msize_delete_entry_le | apply delete_entry_max].
+      * apply dr_with; [exact Hr | apply sim_delete_entry; [exact I | split; assumption] | apply delete_entry_max].
+    + destruct (msize_ual' k _ I) as [Hs Hm]. split; [|split; [|reflexivity]].
+      * apply dinv_with; [exact Hi | apply linv_ual; exact I | lia | exact Hm].
+      * apply dr_with; [exact Hr | apply sim_ual; [exact I | split; assumption] | exact Hm].
+  - (* Invalidate *)
+    unfold dir_invalidate. split; [|split; [|reflexivity]].
+    + apply dinv_with; [exact Hi | apply linv_delete_entry; exact I | apply msize_delete_entry_le | apply delete_entry_max].
+    + apply dr_with; [exact Hr | apply sim_delete_entry; assumption | apply delete_entry_max].
+  - (* InvalidateTree *)
+    unfold dir_invalidate_tree.
+    destruct (delete_where_char (fun p (_ : centry (list E)) => in_tree p d) _ I) as (I' & _ & _ & Hm & Hs).
+    split; [|split; [|reflexivity]].
+    + apply dinv_with; assumption.
+    + apply dr_with; [exact Hr | | exact Hm]. apply sim_delete_where; try assumption. reflexivity.
+  - (* Resize *)
+    unfold dir_resize. assert (1 <= default_size n 1000) as Hn by (apply default_size_pos; lia).
+    destruct (resize_char _ _ I B Hn) as (I' & B' & _ & _ & Hm).
+    split; [split; assumption|]. split; [|reflexivity].
+    split; [apply sim_resize; assumption|]. cbn. repeat split; congruence.
+  - (* UpdateTTL *)
+    unfold dir_update_ttl. split; [split; assumption|]. split; [|reflexivity].
+    split; [exact HR|]. cbn. repeat split; congruence.
+  - (* Clear *)
+    unfold dir_clear. split; [|split; [|reflexivity]].
+    + split; cbn [dc_lru with_dlru]; [apply linv_clear | destruct B as [_ Hp]; split; cbn; [lia | exact Hp]].
+    + apply dr_with; [exact Hr | apply sim_clear | reflexivity].
+Qed.
+
+Lemma dir_observe_sim c s r : DInv c -> DR c s -> dir_observe c r = sd_observe s r.
+Proof.
+  intros [I B] (HR & Hcap & _). unfold dir_observe, sd_observe, dir_size, dir_max_entries.
+  rewrite (R_length _ _ I HR), Hcap. reflexivity.
+Qed.
+
+Theorem dir_refines_gen : forall h c s, DInv c -> DR c s -> dir_run_obs c h = sd_run_obs s h.
+Proof.
+  induction h as [|to h IH]; intros c s Hi Hr; [reflexivity|].
+  destruct (dir_step_sim c s to Hi Hr) as (Hi' & Hr' & Hres).
+  cbn [dir_run_obs sd_run_obs].
+  destruct (dir_step_res c to) as [c' r] eqn:Ec. destruct (sd_step_res s to) as [s' r'] eqn:Es.
+  cbn [fst snd] in *. subst r'. f_equal; [apply dir_observe_sim; assumption | apply IH; assumption].
+Qed.
+
+Definition dir_reachable (t me md : Z) c : Prop := exists h, c = fold_left dir_step h (new_dir_cache t me md).
+Definition sd_step s (to : N * dir_op E) : dir_spec E := fst (sd_step_res s to).
+Lemma dir_run_inv h : forall c s, DInv c -> DR c s ->
+  DInv (fold_left dir_step h c) /\ DR (fold_left dir_step h c) (fold_left sd_step h s).
+Proof.
+  induction h as [|to h IH]; intros c s Hi Hr; [split; assumption|]. cbn [fold_left].
+  destruct (dir_step_sim c s to Hi Hr) as (Hi' & Hr' & _). apply IH; assumption.
+Qed.
+Lemma dir_step_inv c to : DInv c -> DInv (dir_step c to).
+Proof.
+  intros Hi.
+  assert (DR c {| ds_entries := abs_tlru (dc_lru c); ds_cap := l_max (dc_lru c); ds_timeout := dc_timeout c;
+                  ds_max_dir := dc_max_dir c |}) as Hr
+    by (split; [apply sim_abs, Hi | repeat split]).
+  destruct (dir_step_sim c _ to Hi Hr) as (Hi' & _). exact Hi'.
+Qed.
+Lemma dir_reachable_inv t me md c : dir_reachable t me md c -> DInv c.
+Proof. intros [h ->]. apply (dir_run_inv h _ _ (dinv_new t me md) (dr_new t me md)). Qed.
+End DirProofs.
+
+(* ================================================================ recency: the access list is ordered by last use *)
+(* l' is l with some elements dropped, order kept *)
+Definition osub (l' l : list path) : Prop :=
+  incl l' l /\ forall (Rel : path -> path -> Prop), StronglySorted Rel l -> StronglySorted Rel l'.
+
+Lemma osub_refl l : osub l l.
+Proof. split; [apply incl_refl | auto]. Qed.
+Lemma osub_trans l1 l2 l3 : osub l1 l2 -> osub l2 l3 -> osub l1 l3.
+Proof. intros [I1 S1] [I2 S2]. split; [eapply incl_tran; eassumption | auto]. Qed.
+Lemma osub_nil l : osub [] l.
+Proof. split; [intros x [] | intros; constructor]. Qed.
+Lemma osub_filter f l : osub (filter f l) l.
+Proof.
+  split; [intros x Hx; apply filter_In in Hx; tauto|]. intros Rel H.
+  induction H as [|a l Hs IH Hf]; cbn; [constructor|]. destruct (f a); [|exact IH].
+  constructor; [exact IH|]. rewrite Forall_forall in *. intros x Hx. apply filter_In in Hx. apply Hf. tauto.
+Qed.
+Lemma osub_firstn n l : osub (firstn n l) l.
+Proof.
+  split; [intros x Hx; eapply firstn_In; exact Hx|]. intros Rel H. revert n.
+  induction H as [|a l Hs IH Hf]; intros [|n]; cbn; try constructor; [apply IH|].
+  rewrite Forall_forall in *. intros x Hx. apply Hf. eapply firstn_In; exact Hx.
+Qed.
+Lemma osub_removelast l : osub (removelast l) l.
+Proof. rewrite removelast_firstn_len. apply osub_firstn. Qed.
+Lemma osub_remove_key k l : osub (remove_key k l) l.
+Proof. apply osub_filter. Qed.
+
+Section Recency.
+Context {V : Type}.
+Implicit Types (c : lru V).
+
+Lemma pre_store_list k c : osub (l_list (pre_store k c)) (l_list c).
+Proof.
+  unfold pre_store. destruct (lookup k (l_map c)); [apply osub_refl|].
+  destruct (l_max c <=? msize c); [|apply osub_refl].
+  unfold evict_back. destruct (l_list c) eqn:El; [rewrite El; apply osub_refl|]. cbn [l_list]. apply osub_removelast.
+Qed.
+(* a store puts its key in front of what remains of the old list *)
+Lemma store_shape k v exp c : LInv c ->
+  exists L, l_list (store k v exp c) = k :: L /\ osub L (l_list c) /\ ~ In k L.
+Proof.
+  intros I. exists (remove_key k (l_list (pre_store k c))). split; [apply store_list; exact I|]. split.
+  - eapply osub_trans; [apply osub_remove_key | apply pre_store_list].
+  - rewrite remove_key_in. tauto.
+Qed.
+Lemma ual_shape k c e : LInv c -> lookup k (l_map c) = Some e ->
+  exists L, l_list (update_access_log k c) = k :: L /\ osub L (l_list c) /\ ~ In k L.
+Proof.
+  intros I H. exists (remove_key k (l_list c)). rewrite (ual_list _ _ _ I H). split; [reflexivity|].
+  split; [apply osub_remove_key | rewrite remove_key_in; tauto].
+Qed.
+Lemma delete_entry_shape k c : LInv c -> osub (l_list (delete_entry k c)) (l_list c).
+Proof. intros I. rewrite (delete_entry_list _ _ I). apply osub_remove_key. Qed.
+Lemma delete_where_shape pred c : LInv c -> osub (l_list (delete_where pred c)) (l_list c).
+Proof. intros I. destruct (delete_where_char pred c I) as (_ & Hl & _). rewrite Hl. apply osub_filter. Qed.
+Lemma resize_shape n c : LInv c -> Bounded c -> 1 <= n -> osub (l_list (resize_core n c)) (l_list c).
+Proof. intros I B Hn. destruct (resize_char n c I B Hn) as (_ & _ & Hl & _). rewrite Hl. apply osub_firstn. Qed.
+
+(* the eviction of a store: which key goes, and that nothing else does *)
+Lemma store_evicts k v exp c : LInv c -> Bounded c -> lookup k (l_map c) = None -> l_max c <= msize c ->
+  let victim := last (l_list c) [] in
+  In victim (l_list c) /\ victim <> k /\
+  l_list (store k v exp c) = k :: removelast (l_list c) /\
+  forall x, lookup x (l_map (store k v exp c)) =
+            if path_eqb x k then Some {| ce_val := v; ce_exp := exp; ce_el := true |}
+            else if path_eqb x victim then None else lookup x (l_map c).
+Proof.
+  intros I [Hb Hp] Hk Hfull victim.
+  assert (l_list c <> []) as Hne.
+  { rewrite (msize_list _ I) in Hfull. intros E0. rewrite E0 in Hfull. cbn in Hfull. lia. }
+  assert (In victim (l_list c)) as Hin by (apply last_in; exact Hne).
+  assert (victim <> k) as Hvk.
+  { intros ->. apply (li_dom _ I), lookup_in_keys in Hin. congruence. }
+  assert (pre_store k c = delete_entry victim c) as Hpre.
+  { unfold pre_store. rewrite Hk. apply N.leb_le in Hfull. rewrite Hfull. apply evict_back_delete_entry; assumption. }
+  split; [exact Hin|]. split; [exact Hvk|]. split.
+  - rewrite store_list, Hpre, (delete_entry_list _ _ I) by assumption. f_equal. unfold victim.
+    rewrite <- removelast_remove_key by (try apply (li_ndl _ I); assumption).
+    apply remove_key_notin. intros H. apply osub_removelast in H. apply (li_dom _ I), lookup_in_keys in H. congruence.
+  - intros x. rewrite store_lookup, Hpre, delete_entry_map by assumption. reflexivity.
+Qed.
+Lemma store_keeps k v exp c : LInv c -> (lookup k (l_map c) <> None \/ msize c < l_max c) ->
+  l_list (store k v exp c) = k :: remove_key k (l_list c) /\
+  forall x, lookup x (l_map (store k v exp c)) =
+            if path_eqb x k then Some {| ce_val := v; ce_exp := exp; ce_el := true |} else lookup x (l_map c).
+Proof.
+  intros I H. assert (pre_store k c = c) as Hpre.
+  { unfold pre_store. destruct (lookup k (l_map c)); [reflexivity|]. destruct H as [H|H]; [congruence|].
+    apply N.leb_gt in H. rewrite H. reflexivity. }
+  split; [rewrite store_list, Hpre by assumption; reflexivity|].
+  intros x. rewrite store_lookup, Hpre by assumption. reflexivity.
+Qed.
+End Recency.
+
+Section AttrRecency.
+Context {A : Type}.
+Implicit Types (c : attr_cache A).
+
+(* the key an operation uses: stored by a Put (a PutNegative only while enabled) or returned by a Get *)
+Definition attr_used c (to : N * attr_op A) : option path :=
+  match snd to with
+  | APut k _ => Some k
+  | APutNegative k => if ac_negon c then Some k else None
+  | AGet k => match snd (attr_get (fst to) k c) with Miss => None | _ => Some k end
+  | _ => None
+  end.
+
+Lemma attr_step_shape c to : AInv c ->
+  match attr_used c to with
+  | Some k => exists L, l_list (ac_lru (attr_step c to)) = k :: L /\ osub L (l_list (ac_lru c)) /\ ~ In k L
+  | None => osub (l_list (ac_lru (attr_step c to))) (l_list (ac_lru c))
+  end.
+Proof.
+  intros [I B HN]. destruct to as [now op]. unfold attr_used, attr_step, attr_step_res. cbn [fst snd].
+  destruct op as [k a|k|k|k|d|d|n|t| |on t]; cbn [fst snd].
+  - unfold attr_put. cbn [ac_lru with_lru]. apply store_shape; exact I.
+  - unfold attr_put_negative.
+    destruct (ac_negon c); [cbn [ac_lru with_lru]; apply store_shape; exact I | apply osub_refl].
+  - unfold attr_get. destruct (lookup k (l_map (ac_lru c))) as [e|] eqn:Hl; [|cbn; apply osub_refl].
+    destruct (Z.of_N now <? ce_exp e)%Z; cbn [fst snd].
+    + assert (exists L, l_list (update_access_log k (ac_lru c)) = k :: L /\ osub L (l_list (ac_lru c)) /\ ~ In k L) as H
+        by (eapply ual_shape; eassumption).
+      destruct (ce_val e); cbn [ac_lru with_lru]; exact H.
+    + destruct (ce_exp e <? Z.of_N now)%Z; cbn [fst snd ac_lru with_lru];
+        [apply delete_entry_shape; exact I | apply osub_refl].
+  - unfold attr_invalidate. cbn [ac_lru with_lru]. apply delete_entry_shape; exact I.
+  - unfold attr_invalidate_negative_in_dir. cbn [ac_lru with_lru]. apply delete_where_shape; exact I.
+  - unfold attr_invalidate_tree. cbn [ac_lru with_lru]. apply delete_where_shape; exact I.
+  - unfold attr_resize. cbn [ac_lru with_lru]. apply resize_shape; [exact I | exact B | apply default_size_pos; lia].
+  - cbn. apply osub_refl.
+  - cbn. apply osub_nil.
+  - unfold attr_configure_negative. destruct on; cbn [ac_lru]; [apply osub_refl | apply delete_where_shape; exact I].
+Qed.
+
+(* instrumented run: st k = number (from 1) of the last step that used k, 0 if never *)
+Fixpoint attr_stamps c (i : nat) (st : path -> nat) (h : list (N * attr_op A)) : attr_cache A * (path -> nat) :=
+  match h with
+  | [] => (c, st)
+  | to :: r =>
+    attr_stamps (attr_step c to) (S i)
+      (match attr_used c to with Some k => fun x => if path_eqb x k then S i else st x | None => st end) r
+  end.
+
+Definition by_stamp (st : path -> nat) (a b : path) : Prop := (st b < st a)%nat.
+
+Lemma attr_stamps_sorted h : forall c i st, AInv c ->
+  (forall x, st x <= i)%nat -> StronglySorted (by_stamp st) (l_list (ac_lru c)) ->
+  let r := attr_stamps c i st h in
+  AInv (fst r) /\ StronglySorted (by_stamp (snd r)) (l_list (ac_lru (fst r))).
+Proof.
+  induction h as [|to h IH]; intros c i st Hi Hst Hs; [split; assumption|]. cbn [attr_stamps].
+  pose proof (attr_step_inv c to Hi) as Hi'. pose proof (attr_step_shape c to Hi) as Hsh.
+  apply IH; [exact Hi'| |].
+  - destruct (attr_used c to) as [k|]; intros x; [destruct (path_eqb x k); [lia|]|]; specialize (Hst x); lia.
+  - destruct (attr_used c to) as [k|].
+    + destruct Hsh as (L & -> & [Hincl Hsub] & Hnk). constructor.
+      * specialize (Hsub _ Hs). clear - Hsub Hnk.
+        induction Hsub as [|a L HsL IHL Hf]; [constructor|]. constructor.
+        -- apply IHL. intros H; apply Hnk; right; exact H.
+        -- rewrite Forall_forall in *. intros y Hy. unfold by_stamp in *.
+           assert (a <> k) by (intros ->; apply Hnk; left; reflexivity).
+           assert (y <> k) by (intros ->; apply Hnk; right; exact Hy).
+           rewrite !path_eqb_neq by assumption. apply Hf, Hy.
+      * rewrite Forall_forall. intros y Hy. unfold by_stamp. rewrite path_eqb_refl.
+        assert (y <> k) by (intros ->; exact (Hnk Hy)). rewrite path_eqb_neq by assumption.
+        specialize (Hst y). lia.
+    + destruct Hsh as [_ Hsub]. apply Hsub, Hs.
+Qed.
+
+(* in every reachable state the access list is in strictly decreasing order of last use *)
+Lemma attr_recency_sorted ttl mx h :
+  let r := attr_stamps (new_attr_cache ttl mx) 0 (fun _ => 0%nat) h in
+  fst r = fold_left attr_step h (new_attr_cache ttl mx) /\
+  StronglySorted (by_stamp (snd r)) (l_list (ac_lru (fst r))).
+Proof.
+  split.
+  - generalize (new_attr_cache (A := A) ttl mx) 0%nat (fun _ : path => 0%nat).
+    induction h as [|to h IH]; intros c i st; [reflexivity|]. cbn [attr_stamps fold_left]. apply IH.
+  - apply attr_stamps_sorted; [apply ainv_new | intros; lia | constructor].
+Qed.
+End AttrRecency.
+
+(* a sorted list's last element is below every other one *)
+Lemma sorted_last_least (st : path -> nat) l x :
+  StronglySorted (by_stamp st) l -> In x l -> x <> last l [] -> (st (last l []) < st x)%nat.
+Proof.
+  intros Hs. induction Hs as [|a l HsL IH Hf]; [intros []|]. intros Hin Hne.
+  destruct l as [|b l]; [cbn in *; destruct Hin as [->|[]]; congruence|].
+  change (last (a :: b :: l) []) with (last (b :: l) []) in *.
+  destruct Hin as [->|Hin].
+  - rewrite Forall_forall in Hf. apply Hf. apply last_in. discriminate.
+  - apply IH; assumption.
+Qed.
+
+Section DirRecency.
+Context {E : Type}.
+Implicit Types (c : dir_cache E).
+
+Definition dir_used c (to : N * dir_op E) : option path :=
+  match snd to with
+  | DPut k es => if dc_max_dir c <? N.of_nat (length es) then None else Some k
+  | DGet k => match snd (dir_get (fst to) k c) with None => None | Some _ => Some k end
+  | _ => None
+  end.
+
+Lemma dir_step_shape c to : DInv c ->
+  match dir_used c to with
+  | Some k => exists L, l_list (dc_lru (dir_step c to)) = k :: L /\ osub L (l_list (dc_lru c)) /\ ~ In k L
+  | None => osub (l_list (dc_lru (dir_step c to))) (l_list (dc_lru c))
+  end.
+Proof.
+  intros [I B]. destruct to as [now op]. unfold dir_used, dir_step, dir_step_res. cbn [fst snd].
+  destruct op as [k es|k|k|d|n|t| ]; cbn [fst snd].
+  - unfold dir_put. destruct (dc_max_dir c <? N.of_nat (length es)); [apply osub_refl|].
+    cbn [dc_lru with_dlru]. apply store_shape; exact I.
+  - unfold dir_get. destruct (lookup k (l_map (dc_lru c))) as [e|] eqn:Hl; [|cbn; apply osub_refl].
+    destruct (ce_exp e <? Z.of_N now)%Z; cbn [fst snd dc_lru with_dlru].
+    + apply delete_entry_shape; exact I.
+    + eapply ual_shape; eassumption.
+  - unfold dir_invalidate. cbn [dc_lru with_dlru]. apply delete_entry_shape; exact I.
+  - unfold dir_invalidate_tree. cbn [dc_lru with_dlru]. apply delete_where_shape; exact I.
+  - unfold dir_resize. cbn [dc_lru with_dlru]. apply resize_shape; [exact I | exact B | apply default_size_pos; lia].
+  - cbn. apply osub_refl.
+  - cbn. apply osub_nil.
+Qed.
+
+Fixpoint dir_stamps c (i : nat) (st : path -> nat) (h : list (N * dir_op E)) : dir_cache E * (path -> nat) :=
+  match h with
+  | [] => (c, st)
+  | to :: r =>
+    dir_stamps (dir_step c to) (S i)
+      (match dir_used c to with Some k => fun x => if path_eqb x k then S i else st x | None => st end) r
+  end.
+
+Lemma dir_stamps_sorted h : forall c i st, DInv c ->
+  (forall x, st x <= i)%nat -> StronglySorted (by_stamp st) (l_list (dc_lru c)) ->
+  let r := dir_stamps c i st h in
+  DInv (fst r) /\ StronglySorted (by_stamp (snd r)) (l_list (dc_lru (fst r))).
+Proof.
+  induction h as [|to h IH]; intros c i st Hi Hst Hs; [split; assumption|]. cbn [dir_stamps].
+  pose proof (dir_step_inv c to Hi) as Hi'. pose proof (dir_step_shape c to Hi) as Hsh.
+  apply IH; [exact Hi'| |].
+  - destruct (dir_used c to) as [k|]; intros x; [destruct (path_eqb x k); [lia|]|]; specialize (Hst x); lia.
+  - destruct (dir_used c to) as [k|].
+    + destruct Hsh as (L & -> & [Hincl Hsub] & Hnk). constructor.
+      * specialize (Hsub _ Hs). clear - Hsub Hnk.
+        induction Hsub as [|a L HsL IHL Hf]; [constructor|]. constructor.
+        -- apply IHL. intros H; apply Hnk; right; exact H.
+        -- rewrite Forall_forall in *. intros y Hy. unfold by_stamp in *.
+           assert (a <> k) by (intros ->; apply Hnk; left; reflexivity).
+           assert (y <> k) by (intros ->; apply Hnk; right; exact Hy).
+           rewrite !path_eqb_neq by assumption. apply Hf, Hy.
+      * rewrite Forall_forall. intros y Hy. unfold by_stamp. rewrite path_eqb_refl.
+        assert (y <> k) by (intros ->; exact (Hnk Hy)). rewrite path_eqb_neq by assumption.
+        specialize (Hst y). lia.
+    + destruct Hsh as [_ Hsub]. apply Hsub, Hs.
+Qed.
+
+Lemma dir_recency_sorted t me md h :
+  let r := dir_stamps (new_dir_cache t me md) 0 (fun _ => 0%nat) h in
+  fst r = fold_left dir_step h (new_dir_cache t me md) /\
+  StronglySorted (by_stamp (snd r)) (l_list (dc_lru (fst r))).
+Proof.
+  split.
+  - generalize (new_dir_cache (E := E) t me md) 0%nat (fun _ : path => 0%nat).
+    induction h as [|to h IH]; intros c i st; [reflexivity|]. cbn [dir_stamps fold_left]. apply IH.
+  - apply dir_stamps_sorted; [apply dinv_new | intros; lia | constructor].
+Qed.
+End DirRecency.
+
+(* ================================================================ property-level lemmas (cited by Properties/C21.v) *)
+Section AttrProps.
+Context {A : Type}.
+Implicit Types (c : attr_cache A).
+
+Definition entry_of c (k : path) : option (centry (option A)) := lookup k (l_map (ac_lru c)).
+
+Lemma C21_attr_invariants_lemma ttl mx c : attr_reachable ttl mx c ->
+  NoDup (l_list (ac_lru c)) /\ NoDup (map fst (l_map (ac_lru c))) /\
+  (forall k, In k (l_list (ac_lru c)) <-> In k (map fst (l_map (ac_lru c)))) /\
+  attr_size c <= attr_max_size c /\ 1 <= attr_max_size c.
+Proof.
+  intros Hr. destruct (attr_reachable_inv _ _ _ Hr) as [I [Hb Hp] _].
+  split; [apply (li_ndl _ I)|]. split; [apply (li_ndm _ I)|]. split; [apply (li_dom _ I)|]. split; assumption.
+Qed.
+
+Lemma C21_refines_attr_lemma ttl mx (h : list (N * attr_op A)) :
+  attr_run_obs (new_attr_cache ttl mx) h = sa_run_obs is_child_of (sa_new ttl mx) h.
+Proof.
+  apply (attr_refines_gen is_child_of (fun _ => True)); auto using ainv_new, ar_new.
+  rewrite Forall_forall. auto.
+Qed.
+
+Definition abs_keys (h : list (N * attr_op A)) : Prop :=
+  Forall (fun to => forall k, op_key (snd to) = Some k -> is_abs k = true) h.
+
+Lemma C21_refines_attr_parent_lemma ttl mx (h : list (N * attr_op A)) : abs_keys h ->
+  attr_run_obs (new_attr_cache ttl mx) h = sa_run_obs direct_child_b (sa_new ttl mx) h.
+Proof.
+  intros Hh. apply (attr_refines_gen direct_child_b (fun k => is_abs k = true)); auto using ainv_new, ar_new.
+  intros k d Hk. apply is_child_of_abs, Hk.
+Qed.
+
+(* Put / PutNegative of a new key into a full cache evicts the last key of the access list and nothing else *)
+Lemma C21_lru_put_lemma ttl mx c now k a : attr_reachable ttl mx c ->
+  entry_of c k = None -> attr_max_size c <= attr_size c ->
+  let victim := last (l_list (ac_lru c)) [] in
+  let c' := attr_put now k a c in
+  entry_of c victim <> None /\ entry_of c' victim = None /\
+  entry_of c' k = Some {| ce_val := Some a; ce_exp := (Z.of_N now + ac_ttl c)%Z; ce_el := true |} /\
+  (forall x, x <> k -> x <> victim -> entry_of c' x = entry_of c x) /\
+  l_list (ac_lru c') = k :: removelast (l_list (ac_lru c)) /\ attr_size c' = attr_size c.
+Proof.
+  intros Hr Hk Hfull victim c'. destruct (attr_reachable_inv _ _ _ Hr) as [I B _].
+  destruct (store_evicts k (Some a) (Z.of_N now + ac_ttl c)%Z (ac_lru c) I B Hk Hfull) as (Hin & Hvk & Hl & Hm).
+  fold victim in Hin, Hvk, Hm. unfold entry_of, c', attr_put. cbn [ac_lru with_lru].
+  split; [apply lookup_in_keys, (li_dom _ I); exact Hin|].
+  split; [rewrite Hm, (path_eqb_neq _ _ Hvk), path_eqb_refl; reflexivity|].
+  split; [rewrite Hm, path_eqb_refl; reflexivity|].
+  split; [intros x H1 H2; rewrite Hm, (path_eqb_neq _ _ H1), (path_eqb_neq _ _ H2); reflexivity|].
+  split; [exact Hl|].
+  unfold attr_size. cbn [ac_lru with_lru].
+  rewrite (msize_list _ (linv_store k (Some a) (Z.of_N now + ac_ttl c)%Z _ I)), (msize_list _ I), Hl. cbn [length].
+  assert (l_list (ac_lru c) <> []) as Hne by (intros E0; rewrite E0 in Hin; exact Hin).
+  pose proof (length_removelast _ Hne). lia.
+Qed.
+Lemma C21_lru_put_negative_lemma ttl mx c now k : attr_reachable ttl mx c -> ac_negon c = true ->
+  entry_of c k = None -> attr_max_size c <= attr_size c ->
+  let victim := last (l_list (ac_lru c)) [] in
+  let c' := attr_put_negative now k c in
+  entry_of c victim <> None /\ entry_of c' victim = None /\
+  entry_of c' k = Some {| ce_val := None; ce_exp := (Z.of_N now + ac_negttl c)%Z; ce_el := true |} /\
+  (forall x, x <> k -> x <> victim -> entry_of c' x = entry_of c x) /\
+  l_list (ac_lru c') = k :: removelast (l_list (ac_lru c)).
+Proof.
+  intros Hr Hon Hk Hfull victim c'. destruct (attr_reachable_inv _ _ _ Hr) as [I B _].
+  destruct (store_evicts k None (Z.of_N now + ac_negttl c)%Z (ac_lru c) I B Hk Hfull) as (Hin & Hvk & Hl & Hm).
+  fold victim in Hin, Hvk, Hm.
+  unfold entry_of, c', attr_put_negative.
+  rewrite Hon. cbn [ac_lru with_lru].
+  split; [apply lookup_in_keys, (li_dom _ I); exact Hin|].
+  split; [rewrite Hm, (path_eqb_neq _ _ Hvk), path_eqb_refl; reflexivity|].
+  split; [rewrite Hm, path_eqb_refl; reflexivity|].
+  split; [intros x H1 H2; rewrite Hm, (path_eqb_neq _ _ H1), (path_eqb_neq _ _ H2); reflexivity | exact Hl].
+Qed.
+(* ... and a Put that does not need room evicts nothing *)
+Lemma C21_put_keeps_lemma ttl mx c now k a : attr_reachable ttl mx c ->
+  (entry_of c k <> None \/ attr_size c < attr_max_size c) ->
+  forall x, x <> k -> entry_of (attr_put now k a c) x = entry_of c x.
+Proof.
+  intros Hr H x Hx. destruct (attr_reachable_inv _ _ _ Hr) as [I B _].
+  destruct (store_keeps k (Some a) (Z.of_N now + ac_ttl c)%Z (ac_lru c) I H) as [_ Hm].
+  unfold entry_of, attr_put. cbn [ac_lru with_lru]. rewrite Hm, (path_eqb_neq _ _ Hx). reflexivity.
+Qed.
+
+(* the victim is the least recently used cached key *)
+Lemma C21_lru_recency_lemma ttl mx (h : list (N * attr_op A)) :
+  let r := attr_stamps (new_attr_cache ttl mx) 0 (fun _ => 0%nat) h in
+  let c := fst r in let last_use := snd r in
+  c = fold_left attr_step h (new_attr_cache ttl mx) /\
+  StronglySorted (by_stamp last_use) (l_list (ac_lru c)) /\
+  forall x, In x (l_list (ac_lru c)) -> x <> last (l_list (ac_lru c)) [] ->
+            (last_use (last (l_list (ac_lru c)) []) < last_use x)%nat.
+Proof.
+  destruct (attr_recency_sorted ttl mx h) as [H1 H2]. split; [exact H1|]. split; [exact H2|].
+  intros x Hin Hne. apply sorted_last_least; assumption.
+Qed.
+
+(* InvalidateNegativeInDir: exactly the negative entries selected by isChildOf go; the rest, their order
+   and the configuration stay *)
+Lemma C21_neg_children_lemma ttl mx c d : attr_reachable ttl mx c ->
+  let c' := attr_invalidate_negative_in_dir d c in
+  (forall x, entry_of c' x =
+             match entry_of c x with
+             | Some e => if is_neg e && is_child_of x d then None else Some e
+             | None => None
+             end) /\
+  l_list (ac_lru c') =
+    filter (fun x => negb match entry_of c x with Some e => is_neg e && is_child_of x d | None => false end)
+           (l_list (ac_lru c)) /\
+  attr_max_size c' = attr_max_size c /\ ac_ttl c' = ac_ttl c /\ ac_negttl c' = ac_negttl c /\ ac_negon c' = ac_negon c.
+Proof.
+  intros Hr c'. destruct (attr_reachable_inv _ _ _ Hr) as [I B _].
+  destruct (delete_where_char (fun p e => is_neg e && is_child_of p d) _ I) as (_ & Hl & Hm & Hx & _).
+  unfold entry_of, c', attr_invalidate_negative_in_dir, attr_max_size. cbn [ac_lru with_lru ac_ttl ac_negttl ac_negon].
+  split; [exact Hm|]. split; [exact Hl|]. split; [exact Hx|]. repeat split.
+Qed.
+
+Lemma filter_none {X} (f : X -> bool) l : (forall x, In x l -> f x = false) -> filter f l = [].
+Proof.
+  induction l as [|y l IH]; cbn; [reflexivity|]. intros H. rewrite (H y (or_introl eq_refl)). apply IH.
+  intros x Hx. apply H. right; exact Hx.
+Qed.
+
+(* negative entries are observable only while negative caching is enabled *)
+Lemma C21_neg_enabled_lemma ttl mx c : attr_reachable ttl mx c -> ac_negon c = false ->
+  (forall k e, entry_of c k = Some e -> ce_val e <> None) /\
+  (forall now k, snd (attr_get now k c) <> NegHit) /\ attr_negative_stats c = 0 /\
+  (forall now k, attr_put_negative now k c = c).
+Proof.
+  intros Hr Hoff. destruct (attr_reachable_inv _ _ _ Hr) as [I B HN]. specialize (HN Hoff).
+  assert (forall k e, entry_of c k = Some e -> ce_val e <> None) as H1.
+  { intros k e Hk. specialize (HN k e Hk). unfold is_neg in HN. destruct (ce_val e); [discriminate | discriminate]. }
+  split; [exact H1|]. split; [|split].
+  - intros now k. unfold attr_get. destruct (lookup k (l_map (ac_lru c))) as [e|] eqn:Hk; [|cbn; discriminate].
+    destruct (Z.of_N now <? ce_exp e)%Z; cbn [snd].
+    + specialize (H1 k e Hk). destruct (ce_val e); [discriminate | congruence].
+    + destruct (ce_exp e <? Z.of_N now)%Z; cbn; discriminate.
+  - unfold attr_negative_stats. rewrite filter_none; [reflexivity|].
+    intros [k e] Hin. cbn [snd]. apply (HN k e). apply in_lookup_nodup; [apply (li_ndm _ I) | exact Hin].
+  - intros now k. unfold attr_put_negative.
+    rewrite Hoff. reflexivity.
+Qed.
+
+(* InvalidateTree removes exactly the keys selected by the tree rule *)
+Lemma C21_tree_lemma ttl mx c d : attr_reachable ttl mx c ->
+  forall x, entry_of (attr_invalidate_tree d c) x = if in_tree x d then None else entry_of c x.
+Proof.
+  intros Hr x. destruct (attr_reachable_inv _ _ _ Hr) as [I B _].
+  destruct (delete_where_char (fun p (_ : centry (option A)) => in_tree p d) _ I) as (_ & _ & Hm & _).
+  unfold entry_of, attr_invalidate_tree. cbn [ac_lru with_lru]. rewrite Hm.
+  destruct (lookup x (l_map (ac_lru c))); destruct (in_tree x d); reflexivity.
+Qed.
+End AttrProps.
+
+Section DirProps.
+Context {E : Type}.
+Implicit Types (c : dir_cache E).
+Definition dentry_of c (k : path) : option (centry (list E)) := lookup k (l_map (dc_lru c)).
+
+Lemma C21_dir_invariants_lemma t me md c : dir_reachable t me md c ->
+  NoDup (l_list (dc_lru c)) /\ NoDup (map fst (l_map (dc_lru c))) /\
+  (forall k, In k (l_list (dc_lru c)) <-> In k (map fst (l_map (dc_lru c)))) /\
+  dir_size c <= dir_max_entries c /\ 1 <= dir_max_entries c.
+Proof.
+  intros Hr. destruct (dir_reachable_inv _ _ _ _ Hr) as [I [Hb Hp]].
+  split; [apply (li_ndl _ I)|]. split; [apply (li_ndm _ I)|]. split; [apply (li_dom _ I)|]. split; assumption.
+Qed.
+Lemma C21_refines_dir_lemma t me md (h : list (N * dir_op E)) :
+  dir_run_obs (new_dir_cache t me md) h = sd_run_obs (sd_new t me md) h.
+Proof. apply dir_refines_gen; [apply dinv_new | apply dr_new]. Qed.
+
+Lemma C21_lru_dir_put_lemma t me md c now k es : dir_reachable t me md c ->
+  N.of_nat (length es) <= dc_max_dir c -> dentry_of c k = None -> dir_max_entries c <= dir_size c ->
+  let victim := last (l_list (dc_lru c)) [] in
+  let c' := dir_put now k es c in
+  dentry_of c victim <> None /\ dentry_of c' victim = None /\
+  dentry_of c' k = Some {| ce_val := es; ce_exp := (Z.of_N now + dc_timeout c)%Z; ce_el := true |} /\
+  (forall x, x <> k -> x <> victim -> dentry_of c' x = dentry_of c x) /\
+  l_list (dc_lru c') = k :: removelast (l_list (dc_lru c)).
+Proof.
+  intros Hr Hsz Hk Hfull victim c'. destruct (dir_reachable_inv _ _ _ _ Hr) as [I B].
+  destruct (store_evicts k es (Z.of_N now + dc_timeout c)%Z (dc_lru c) I B Hk Hfull) as (Hin & Hvk & Hl & Hm).
+  fold victim in Hin, Hvk, Hm. unfold dentry_of, c', dir_put.
+  apply N.ltb_ge in Hsz. rewrite Hsz. cbn [dc_lru with_dlru].
+  split; [apply lookup_in_keys, (li_dom _ I); exact Hin|].
+  split; [rewrite Hm, (path_eqb_neq _ _ Hvk), path_eqb_refl; reflexivity|].
+  split; [rewrite Hm, path_eqb_refl; reflexivity|].
+  split; [intros x H1 H2; rewrite Hm, (path_eqb_neq _ _ H1), (path_eqb_neq _ _ H2); reflexivity | exact Hl].
+Qed.
+(* a listing longer than maxDirSize is refused: the cache is unchanged (a previous listing stays) *)
+Lemma C21_dir_put_refused_lemma c now k es : dc_max_dir c < N.of_nat (length es) -> dir_put now k es c = c.
+Proof. intros H. unfold dir_put. apply N.ltb_lt in H. rewrite H. reflexivity. Qed.
+
+Lemma C21_lru_recency_dir_lemma t me md (h : list (N * dir_op E)) :
+  let r := dir_stamps (new_dir_cache t me md) 0 (fun _ => 0%nat) h in
+  let c := fst r in let last_use := snd r in
+  c = fold_left dir_step h (new_dir_cache t me md) /\
+  StronglySorted (by_stamp last_use) (l_list (dc_lru c)) /\
+  forall x, In x (l_list (dc_lru c)) -> x <> last (l_list (dc_lru c)) [] ->
+            (last_use (last (l_list (dc_lru c)) []) < last_use x)%nat.
+Proof.
+  destruct (dir_recency_sorted t me md h) as [H1 H2]. split; [exact H1|]. split; [exact H2|].
+  intros x Hin Hne. apply sorted_last_least; assumption.
+Qed.
+End DirProps.
+
+(* ================================================================ a hit returns the most recent value stored *)
+(* [ls] maps every key to the last (value, expiry) stored for it by the history, None once it has been
+   invalidated (Invalidate, InvalidateTree, InvalidateNegativeInDir, Clear, switching negative caching off).
+   It is computed from the operations and the TTL configuration only - no capacity, no recency. *)
+Section AttrLatest.
+Context {A : Type}.
+Implicit Types (c : attr_cache A).
+Definition lsmap := path -> option (option A * Z).
+Definition ls_upd (f : lsmap) (k : path) (v : option (option A * Z)) : lsmap :=
+  fun x => if path_eqb x k then v else f x.
+Definition ls_step c (f : lsmap) (to : N * attr_op A) : lsmap :=
+  let now := Z.of_N (fst to) in
+  match snd to with
+  | APut k a => ls_upd f k (Some (Some a, (now + ac_ttl c)%Z))
+  | APutNegative k => if ac_negon c then ls_upd f k (Some (None, (now + ac_negttl c)%Z)) else f
+  | AInvalidate k => ls_upd f k None
+  | AInvalidateNegativeInDir d =>
+    fun x => match f x with Some (None, _) => if is_child_of x d then None else f x | o => o end
+  | AInvalidateTree d => fun x => if in_tree x d then None else f x
+  | AClear => fun _ => None
+  | AConfigureNegative false _ => fun x => match f x with Some (None, _) => None | o => o end
+  | _ => f
+  end.
+Fixpoint ls_run c (f : lsmap) (h : list (N * attr_op A)) : attr_cache A * lsmap :=
+  match h with [] => (c, f) | to :: r => ls_run (attr_step c to) (ls_step c f to) r end.
+
+Definition LsOk c (f : lsmap) : Prop :=
+  forall k e, lookup k (l_map (ac_lru c)) = Some e -> f k = Some (ce_val e, ce_exp e).
+
+Lemma lsok_sub c (l : lru (option A)) f : LsOk c f -> Sub l (ac_lru c) -> LsOk (with_lru c l) f.
+Proof. intros H HS k e Hk. apply H, HS, Hk. Qed.
+
+Lemma ls_step_ok c f to : AInv c -> LsOk c f -> LsOk (attr_step c to) (ls_step c f to).
+Proof.
+  intros [I B HN] H. destruct to as [now op]. unfold attr_step, attr_step_res, ls_step. cbn [fst snd].
+  destruct op as [k a|k|k|k|d|d|n|t| |on t]; cbn [fst snd].
+  - unfold attr_put. intros x e. cbn [ac_lru with_lru]. rewrite store_lookup by assumption. unfold ls_upd.
+    destruct (path_eqb x k); [intros [= <-]; reflexivity|]. intros Hx. apply H, (sub_pre_store k _ I), Hx.
+  - unfold attr_put_negative. destruct (ac_negon c); [|exact H].
+    intros x e. cbn [ac_lru with_lru]. rewrite store_lookup by assumption. unfold ls_upd.
+    destruct (path_eqb x k); [intros [= <-]; reflexivity|]. intros Hx. apply H, (sub_pre_store k _ I), Hx.
+  - unfold attr_get. destruct (lookup k (l_map (ac_lru c))) as [e0|] eqn:Hl; [|exact H].
+    destruct (Z.of_N now <? ce_exp e0)%Z; cbn [fst].
+    + apply lsok_sub; [exact H | apply sub_ual; exact I].
+    + destruct (ce_exp e0 <? Z.of_N now)%Z; cbn [fst]; [apply lsok_sub; [exact H | apply sub_delete_entry] | exact H].
+  - unfold attr_invalidate. intros x e. cbn [ac_lru with_lru]. rewrite delete_entry_map. unfold ls_upd.
+    destruct (path_eqb x k); [discriminate | apply H].
+  - unfold attr_invalidate_negative_in_dir. intros x e. cbn [ac_lru with_lru].
+    destruct (delete_where_char (fun p e => is_neg e && is_child_of p d) _ I) as (_ & _ & Hm & _). rewrite Hm.
+    destruct (lookup x (l_map (ac_lru c))) as [e'|] eqn:Hx; [|discriminate].
+    destruct (is_neg e' && is_child_of x d) eqn:Ep; [discriminate|]. intros [= <-].
+    rewrite (H _ _ Hx). unfold is_neg in Ep. destruct (ce_val e'); [reflexivity|]. cbn in Ep. rewrite Ep. reflexivity.
+  - unfold attr_invalidate_tree. intros x e. cbn [ac_lru with_lru].
+    destruct (delete_where_char (fun p (_ : centry (option A)) => in_tree p d) _ I) as (_ & _ & Hm & _). rewrite Hm.
+    destruct (lookup x (l_map (ac_lru c))) as [e'|] eqn:Hx; [|discriminate].
+    destruct (in_tree x d); [discriminate|]. intros [= <-]. apply H, Hx.
+  - unfold attr_resize. apply lsok_sub; [exact H | apply sub_resize; [exact I | exact B | apply default_size_pos; lia]].
+  - exact H.
+  - intros x e. cbn. discriminate.
+  - unfold attr_configure_negative. destruct on; [exact H|]. intros x e. cbn [ac_lru].
+    destruct (delete_where_char (fun (_ : path) (e : centry (option A)) => is_neg e) _ I) as (_ & _ & Hm & _). rewrite Hm.
+    destruct (lookup x (l_map (ac_lru c))) as [e'|] eqn:Hx; [|discriminate].
+    destruct (is_neg e') eqn:Ep; [discriminate|]. intros [= <-].
+    rewrite (H _ _ Hx). unfold is_neg in Ep. destruct (ce_val e'); [reflexivity | discriminate].
+Qed.
+
+Lemma ls_run_ok h : forall c f, AInv c -> LsOk c f ->
+  fst (ls_run c f h) = fold_left attr_step h c /\ AInv (fst (ls_run c f h)) /\ LsOk (fst (ls_run c f h)) (snd (ls_run c f h)).
+Proof.
+  induction h as [|to h IH]; intros c f Hi H; [split; [reflexivity | split; assumption]|]. cbn [ls_run fold_left].
+  apply IH; [apply attr_step_inv; exact Hi | apply ls_step_ok; assumption].
+Qed.
+
+(* every hit is the most recently stored, not since invalidated value of its key, before its expiry *)
+Lemma C21_get_latest_lemma ttl mx (h : list (N * attr_op A)) now k :
+  let r := ls_run (new_attr_cache ttl mx) (fun _ => None) h in
+  let c := fst r in let last_store := snd r in
+  c = fold_left attr_step h (new_attr_cache ttl mx) /\
+  match snd (attr_get now k c) with
+  | Hit a => exists exp, last_store k = Some (Some a, exp) /\ (Z.of_N now < exp)%Z
+  | NegHit => exists exp, last_store k = Some (None, exp) /\ (Z.of_N now < exp)%Z
+  | Miss => True
+  end.
+Proof.
+  destruct (ls_run_ok h (new_attr_cache ttl mx) (fun _ => None) (ainv_new ttl mx)) as (H1 & _ & H3);
+    [intros x e; cbn; discriminate|].
+  split; [exact H1|]. unfold attr_get.
+  destruct (lookup k (l_map (ac_lru (fst (ls_run (new_attr_cache ttl mx) (fun _ => None) h))))) as [e|] eqn:Hk; [|exact I].
+  specialize (H3 k e Hk). destruct (Z.of_N now <? ce_exp e)%Z eqn:Hlt; cbn [snd].
+  - apply Z.ltb_lt in Hlt. destruct (ce_val e); exists (ce_exp e); split; assumption.
+  - destruct (ce_exp e <? Z.of_N now)%Z; exact I.
+Qed.
+End AttrLatest.
+
+Section DirLatest.
+Context {E : Type}.
+Implicit Types (c : dir_cache E).
+Definition dlsmap := path -> option (list E * Z).
+Definition dls_step c (f : dlsmap) (to : N * dir_op E) : dlsmap :=
+  let now := Z.of_N (fst to) in
+  match snd to with
+  | DPut k es => if dc_max_dir c <? N.of_nat (length es) then f       (* refused: not stored *)
+                 else fun x => if path_eqb x k then Some (es, (now + dc_timeout c)%Z) else f x
+  | DInvalidate k => fun x => if path_eqb x k then None else f x
+  | DInvalidateTree d => fun x => if in_tree x d then None else f x
+  | DClear => fun _ => None
+  | _ => f
+  end.
+Fixpoint dls_run c (f : dlsmap) (h : list (N * dir_op E)) : dir_cache E * dlsmap :=
+  match h with [] => (c, f) | to :: r => dls_run (dir_step c to) (dls_step c f to) r end.
+Definition DLsOk c (f : dlsmap) : Prop :=
+  forall k e, lookup k (l_map (dc_lru c)) = Some e -> f k = Some (ce_val e, ce_exp e).
+
+Lemma dls_step_ok c f to : DInv c -> DLsOk c f -> DLsOk (dir_step c to) (dls_step c f to).
+Proof.
+  intros [I B] H. destruct to as [now op]. unfold dir_step, dir_step_res, dls_step. cbn [fst snd].
+  destruct op as [k es|k|k|d|n|t| ]; cbn [fst snd].
+  - unfold dir_put. destruct (dc_max_dir c <? N.of_nat (length es)); [exact H|].
+    intros x e. cbn [dc_lru with_dlru]. rewrite store_lookup by assumption.
+    destruct (path_eqb x k); [intros [= <-]; reflexivity|]. intros Hx. apply H, (sub_pre_store k _ I), Hx.
+  - unfold dir_get. destruct (lookup k (l_map (dc_lru c))) as [e0|] eqn:Hl; [|exact H].
+    destruct (ce_exp e0 <? Z.of_N now)%Z; cbn [fst]; intros x e Hx; apply H.
+    + apply (sub_delete_entry k _ x e Hx).
+    + apply (sub_ual k _ I x e Hx).
+  - unfold dir_invalidate. intros x e. cbn [dc_lru with_dlru]. rewrite delete_entry_map.
+    destruct (path_eqb x k); [discriminate | apply H].
+  - unfold dir_invalidate_tree. intros x e. cbn [dc_lru with_dlru].
+    destruct (delete_where_char (fun p (_ : centry (list E)) => in_tree p d) _ I) as (_ & _ & Hm & _). rewrite Hm.
+    destruct (lookup x (l_map (dc_lru c))) as [e'|] eqn:Hx; [|discriminate].
+    destruct (in_tree x d); [discriminate|]. intros [= <-]. apply H, Hx.
+  - unfold dir_resize. intros x e Hx. apply H.
+    apply (sub_resize _ _ I B (default_size_pos n 1000 ltac:(lia)) x e Hx).
+  - exact H.
+  - intros x e. cbn. discriminate.
+Qed.
+
+Lemma dls_run_ok h : forall c f, DInv c -> DLsOk c f ->
+  fst (dls_run c f h) = fold_left dir_step h c /\ DLsOk (fst (dls_run c f h)) (snd (dls_run c f h)).
+Proof.
+  induction h as [|to h IH]; intros c f Hi H; [split; [reflexivity | exact H]|]. cbn [dls_run fold_left].
+  apply IH; [apply dir_step_inv; exact Hi | apply dls_step_ok; assumption].
+Qed.
+
+Lemma C21_dir_get_latest_lemma t me md (h : list (N * dir_op E)) now k :
+  let r := dls_run (new_dir_cache t me md) (fun _ => None) h in
+  let c := fst r in let last_store := snd r in
+  c = fold_left dir_step h (new_dir_cache t me md) /\
+  match snd (dir_get now k c) with
+  | Some es => exists exp, last_store k = Some (es, exp) /\ (Z.of_N now <= exp)%Z
+  | None => True
+  end.
+Proof.
+  destruct (dls_run_ok h (new_dir_cache t me md) (fun _ => None) (dinv_new t me md)) as (H1 & H3);
+    [intros x e; cbn; discriminate|].
+  split; [exact H1|]. unfold dir_get.
+  destruct (lookup k (l_map (dc_lru (fst (dls_run (new_dir_cache t me md) (fun _ => None) h))))) as [e|] eqn:Hk; [|exact I].
+  specialize (H3 k e Hk). destruct (ce_exp e <? Z.of_N now)%Z eqn:Hlt; cbn [snd]; [exact I|].
+  apply Z.ltb_ge in Hlt. exists (ce_exp e). split; assumption.
+Qed.
+End DirLatest.
